@@ -106,7 +106,7 @@ type c20Worker struct {
 
 func c20NewWorker() *c20Worker {
 	w := &c20Worker{net: clNewNet(), hcs: map[string]*HostClient{}, byAPI: map[string]int{}}
-	w.cl = &Client{Dial: w.net.Dial, NoDefaultUserAgentHeader: true, MaxIdleConnDuration: time.Hour}
+	w.cl = &Client{Dial: w.net.Dial, NoDefaultUserAgentHeader: true, MaxIdleConnDuration: time.Hour, ReadTimeout: 60 * time.Second}
 	return w
 }
 
@@ -122,7 +122,7 @@ func (w *c20Worker) hostClient(b *c20Beh) *HostClient {
 	if hc == nil {
 		auth := strings.TrimSuffix(strings.TrimPrefix(b.Init.URL, "http://"), "/d/r0")
 		hc = &HostClient{Addr: AddMissingPort(c20HostPort(auth), false), Dial: w.net.Dial,
-			NoDefaultUserAgentHeader: true, MaxIdleConnDuration: time.Hour}
+			NoDefaultUserAgentHeader: true, MaxIdleConnDuration: time.Hour, ReadTimeout: 60 * time.Second}
 		w.hcs[b.Init.ID] = hc
 	}
 	return hc
@@ -438,8 +438,16 @@ func c20Calls(b *c20Beh, quick bool, idx int) []c20Call {
 	}
 	// requests with a body: the way the caller supplied it rotates over chains and calls
 	if m := b.Init.Method; m == "POST" || m == "PUT" || m == "PATCH" {
+		// a body stream can be sent once only (a resend would announce a body that never
+		// comes): streams are used where the body is not sent again, i.e. no redirect is
+		// followed or the first one is a 303
+		streamOK := len(b.Sent) <= 1 || b.Hops[0].Status == 303
 		for k := range calls {
-			calls[k].src = c20BodySources[(idx+k)%len(c20BodySources)]
+			j := (idx + k) % len(c20BodySources)
+			for !streamOK && strings.HasPrefix(c20BodySources[j], "stream") {
+				j = (j + 1) % len(c20BodySources)
+			}
+			calls[k].src = c20BodySources[j]
 		}
 	}
 	// the helpers have a fixed limit of 16: a chain's expectation carries over iff the
